@@ -7,6 +7,10 @@ extern "C" {
     ) -> libc::c_int;
 }
 
+#[cfg(trusttunnel_verif)]
+use crate::verif::std;
+#[cfg(trusttunnel_verif)]
+use crate::verif::tokio;
 use bytes::{Buf, BufMut, Bytes, BytesMut};
 use std::io;
 use std::net::{IpAddr, Ipv4Addr, Ipv6Addr, SocketAddr, SocketAddrV4, SocketAddrV6, UdpSocket};
